@@ -10,7 +10,7 @@ VERIF = os.path.dirname(os.path.dirname(os.path.abspath(__file__)))
 REPO = os.environ.get("REPO", "/repo")
 SPECS = os.path.join(VERIF, "specs")
 OVERLAY = os.path.join(VERIF, "overlay")
-EVID = os.path.join(VERIF, "evidence")
+EVID = os.environ.get("VERIF_EVID") or os.path.join(VERIF, "evidence")   # VERIF_EVID: development runs against scratch worktrees
 TIER = os.environ.get("VERIF_TIER", "quick")
 try:
     SEED = int(os.environ.get("VERIF_SEED", "1"))
